@@ -217,11 +217,47 @@ def f2(tier: str) -> Iterator[Dict]:
             for sc1 in s1:
                 for sc2 in (s2 if th else s2[:2]):
                     yield spec([dom] * nv, [(i, 0) for i in range(nv)], [(t1, sc1, p1), (t2, sc2, p2)], f"F2:{tag}:{t1}+{t2}")
+    yield from f2_shared(tier)
     # negative domains
     for (t1, a1, p1), (t2, a2, p2) in itertools.product([r for r in REPR if r[0] in K.TRANSLATION_COVARIANT or r[0].startswith("affine")], repeat=2):
         nv = max(3, a1, a2)
         yield spec([(-2, 0)] * nv, [(i, 0) for i in range(nv)], [(t1, tuple(range(a1)), p1), (t2, tuple(range(nv - a2, nv)), p2)],
                    f"F2:neg:{t1}+{t2}")
+
+
+def f2_shared(tier: str) -> Iterator[Dict]:
+    """Pairs of constraints where the first one sees one shared domain at two positions (offsets 0 / +1, or the same
+    variable twice) and the second one prunes that shared domain: wake-ups of the first by the second go through the
+    combined trigger mask of the shared domain."""
+    first = [r for r in REPR if r[1] >= 2 and r[0] not in ("gcc", "element_iv", "dummy")]
+    second = [("affine_leq", 2, (1, 1, 2)), ("affine_geq", 2, (1, 1, 2)), ("affine_eq", 2, (1, -1, 0)), ("alldifferent", 2, ()),
+              ("max_leq", 2, ()), ("min_geq", 2, ()), ("affine_leq", 2, (1, -1, -1)), ("affine_geq", 2, (1, -1, 1)),
+              ("relation", 2, (0, 2, 1, 0, 2, 1))]
+    extra_first = [("affine_leq", 3, (-1, 1, 1, 1)), ("affine_leq", 3, (1, 1, -1, 1)), ("affine_geq", 3, (-1, 1, 1, 0)),
+                   ("affine_geq", 3, (1, -2, -1, -2)), ("affine_leq", 3, (-2, -2, 1, -2)), ("affine_leq", 2, (-1, 1, 1)),
+                   ("affine_geq", 2, (1, -1, -1)), ("max_leq", 3, ()), ("min_geq", 3, ()), ("max_leq", 2, ()), ("min_geq", 2, ())]
+    for (t1, a1, p1) in first + extra_first:
+        pairs = [(0, a1 - 1)] + ([(0, 1)] if a1 > 2 else []) + ([(1, a1 - 1)] if a1 > 2 and tier == "thorough" else [])
+        for (pa, pb) in pairs:
+            for off in (1, 0):
+                # variables of constraint 1: position pa -> (dom 0, 0), position pb -> (dom 0, off); others own domains
+                doms, variables, scope = [(0, 2)], [(0, 0), (0, off)], []
+                for i in range(a1):
+                    if i == pa:
+                        scope.append(0)
+                    elif i == pb:
+                        scope.append(1)
+                    else:
+                        doms.append((0, 2))
+                        variables.append((len(doms) - 1, 0))
+                        scope.append(len(variables) - 1)
+                doms.append((0, 2))
+                variables.append((len(doms) - 1, 0))
+                free = len(variables) - 1
+                for (t2, a2, p2) in second:
+                    for sc2 in ((0, free), (free, 0)) if tier == "thorough" else ((0, free),):
+                        yield spec(doms, variables, [(t1, scope, p1), (t2, sc2, p2)], f"F2:shared:{t1}+{t2}")
+                        yield spec(doms, variables, [(t2, sc2, p2), (t1, scope, p1)], f"F2:shared:{t2}+{t1}")
 
 
 # ----------------------------------------------------------------------------------------------------------------
@@ -361,9 +397,35 @@ def f4(tier: str) -> Iterator[Dict]:
     yield spec([(0, 2), (0, 3)], [(0, 0), (1, 0)], [("max_leq", [0, 1], ())], "F4:max_leq-objective")
 
 
-def universe(tier: str, families=("F1", "F2", "F3", "F4"), max_assignments=4096) -> List[Dict]:
+def f5(tier: str) -> Iterator[Dict]:
+    """Small systems of binary constraints over 4 variables: every set of k constraints from a small alphabet
+    (equalities and one-sided linear constraints, the propagators that watch one bound only)."""
+    nv = 4
+    pairs = list(itertools.combinations(range(nv), 2))
+    alphabet = []
+    for (i, j) in pairs:
+        alphabet += [("affine_eq", [i, j], (1, -1, 0)), ("affine_geq", [i, j], (1, 1, 1)), ("affine_leq", [i, j], (1, 1, 1))]
+    sizes = (3,) if tier == "quick" else (3, 4)
+    for k in sizes:
+        for cons in itertools.combinations(alphabet, k):
+            if len({v for c in cons for v in c[1]}) < nv:
+                continue
+            yield spec([(0, 1)] * nv, [(i, 0) for i in range(nv)], cons, f"F5:bool{k}")
+    # two disjoint equality/cover blocks joined by a one-sided constraint (x=u, x+u>=1, y=v, y+v>=1, x+y<=1 and variants)
+    joins = [("affine_leq", (1, 1, 1)), ("affine_geq", (1, 1, 1)), ("affine_leq", (1, -1, 0)), ("affine_geq", (1, 1, 2)), ("max_leq", ()), ("min_geq", ())]
+    blocks = [[("affine_eq", (1, -1, 0)), ("affine_geq", (1, 1, 1))], [("affine_eq", (1, -1, 0)), ("affine_leq", (1, 1, 1))],
+              [("affine_leq", (1, -1, 0)), ("affine_geq", (1, -1, 0))], [("affine_eq", (1, -1, 0))]]
+    for dom in ((0, 1), (-1, 0), (0, 2)):
+        for b1, b2 in itertools.product(blocks, repeat=2):
+            for jt, jp in joins:
+                cons = [(t, [0, 1], p) for t, p in b1] + [(t, [2, 3], p) for t, p in b2] + [(jt, [0, 2], jp)]
+                yield spec([dom] * nv, [(i, 0) for i in range(nv)], cons, "F5:blocks")
+                yield spec([dom] * 5, [(i, 0) for i in range(5)], [(jt, [0, 2], jp)] + cons[:-1], "F5:blocks+free")
+
+
+def universe(tier: str, families=("F1", "F2", "F3", "F4", "F5"), max_assignments=4096) -> List[Dict]:
     out, seen = [], set()
-    gens = {"F1": f1, "F2": f2, "F3": f3, "F4": f4}
+    gens = {"F1": f1, "F2": f2, "F3": f3, "F4": f4, "F5": f5}
     for fam in families:
         for s in gens[fam](tier):
             if n_assignments(s) > max_assignments and not s["tag"].startswith("F3"):
